@@ -226,3 +226,53 @@ def repeat_cases(rng, n):
             b = pre + setup + mid + macro * k + tail
         out.append((case(f, a, rows, cols), case(f, b, rows, cols)))
     return out
+
+def op_cases(rng, n, maxcmds=7):
+    """operators with motions that mostly succeed, register prefixes, puts, joins, replaces, plain inserts (C08)"""
+    out = []
+    common = [b"a", b"o", b"e", b" ", b"b", b"f", b"l", b".", b"(", b")", b"x", "é".encode(), "中".encode(), b"\t", b"r", b"z"]
+    movers = [b"w", b"b", b"e", b"W", b"B", b"E", b"h", b"l", b"j", b"k", b"0", b"^", b"$", b"G", b"+", b"-", b"_", b"%", b"{", b"}", b"H", b"M", b"L", b" ", b"\x7f", b"|"]
+    for i in range(n):
+        f = gen_file(rng, long=(rng.below(10) == 0))
+        rows, cols = geometry(rng)
+        parts = []
+        for _ in range(1 + rng.below(maxcmds)):
+            k = rng.below(20)
+            c = rng.pick([b"", b"", b"", b"2", b"3", b"5", b"12"])
+            r = rng.pick([b"", b"", b"", b'"a', b'"b', b'"A', b'""', b'"1', b'"z', b'"B'])
+            if k < 4:      # position the cursor
+                parts.append(rng.pick([b"", b"2", b"3"]) + rng.pick(movers))
+            elif k < 9:
+                op = rng.pick([b"d", b"d", b"y"])
+                c2 = rng.pick([b"", b"", b"", b"2", b"3"])
+                m = rng.pick(movers + [b"f", b"F", b"t", b"T", b"f", b"F"] + [op])
+                if m in (b"f", b"F", b"t", b"T"): m += rng.pick(common)
+                parts.append(r + c + op + c2 + m)
+            elif k < 11: parts.append(r + c + rng.pick([b"x", b"X", b"D", b"Y"]))
+            elif k < 14: parts.append(r + rng.pick([b"", b"", b"2", b"3"]) + rng.pick([b"p", b"P"]))
+            elif k == 14: parts.append(rng.pick([b"", b"2", b"3", b"4"]) + b"J")
+            elif k == 15: parts.append(rng.pick([b"", b"2", b"3"]) + b"r" + rng.pick(common[:12]))
+            elif k == 16: parts.append(rng.pick([b"", b"2", b"5", b"40"]) + b"~")
+            elif k == 17: parts.append(rng.pick([b"i", b"a", b"I", b"A"]) + rng.pick([b"abc", b"x y", b"foo(bar)", "é中".encode(), b"k.", b"Z"]) + b"\x1b")
+            elif k == 18: parts.append(b"u")
+            else: parts.append(rng.pick([b"\x12", b"u", b"."]))
+        out.append(case(f, b"".join(parts), rows, cols))
+    return out
+
+def screen_cases(rng, n, maxcmds=9):
+    """motions, scrolls, edits, undo/redo and ex commands with the emulated screen dumped at every boundary (C19)"""
+    out = []
+    scrolls = [b"\x04", b"\x15", b"\x06", b"\x02", b"\x05", b"\x19", b"z\n", b"z.", b"z-", b"G", b"1G", b"H", b"L", b"M", b"3\x05", b"2\x19", b"5j", b"5k", b"}", b"{", b"$", b"0", b"30|", b"w", b"10l"]
+    for i in range(n):
+        f = gen_file(rng, long=(rng.below(2) == 0))
+        rows, cols = geometry(rng)
+        if rng.below(3) == 0: rows = 4 + rng.below(6)
+        parts = []
+        for _ in range(1 + rng.below(maxcmds)):
+            k = rng.below(10)
+            if k < 4: parts.append(rng.pick(scrolls))
+            elif k < 6: parts.append(motion(rng))
+            elif k < 9: parts.append(edit(rng))
+            else: parts.append(rng.pick([b"u", b"\x12", b"dd", b"3dd", b"p", b"P", b"yyP", b"J", b"onew\x1b", b"Oup\x1b", b"5dd", b"dG", b":1,3d\n", b":$\n", b":1\n", b":2,3m0\n", b"\x0c"]))
+        out.append(case(f, b"".join(parts), rows, cols, screen=1))
+    return out
